@@ -5,7 +5,9 @@
    subdomain_pair_to_interface, subdomain_to_interfaces, subdomain_to_boundary_grid,
    as of the tree containing the two repairs
      "fix: md-grid remove/replace of 0-d subdomains no longer looks up a boundary grid"
-     "fix: md-grid add_interface registers the interface only after validating the pair".
+     "fix: md-grid add_interface registers the interface only after validating the pair"
+     "fix: md-grid remove/replace handle a subdomain that is coupled to itself"
+     "fix: md-grid add_subdomains rejects a grid that is listed twice in one call".
    Executable definitions only.
 
    Grids (subdomain grids, mortar grids, boundary grids) are identified by
@@ -162,6 +164,37 @@ Definition sd_to_intfs (g : st) (s : gid) : res (list gid) :=
 
 Definition sd_to_bg (g : st) (s : gid) : option gid := lookup s (s2b g).
 
+(* boundaries(dim=d) *)
+Definition boundaries (g : st) (d : option nat) : res (list gid) :=
+  match sds g, s2b g with
+  | _ :: _, [] => Err ValueErr       (* subdomains but no boundary grids *)
+  | _, _ => argsort (sds g) (dim_filter d (bgs g))
+  end.
+
+(* interfaces(dim=d, codim=c); the co-dimension is an attribute of the mortar grid,
+   given here as a table (default 1, the constructor's default) *)
+Definition codim_of (cm : list (gid * nat)) (i : gid) : nat :=
+  match lookup i cm with Some c => c | None => 1 end.
+Definition codim_filter (cm : list (gid * nat)) (c : option nat) (l : list gid) : list gid :=
+  match c with None => l | Some c => filter (fun i => codim_of cm i =? c) l end.
+Definition interfaces_cd (cm : list (gid * nat)) (g : st) (d c : option nat) : res (list gid) :=
+  argsort (sds g) (codim_filter cm c (dim_filter d (intfs g))).
+
+(* neighboring_subdomains(sd, only_higher, only_lower) *)
+Fixpoint neigh_raw (s : gid) (m : list (gid * (gid * gid))) : list gid :=
+  match m with
+  | [] => []
+  | (_, (a, b)) :: r => if geqb a s then b :: neigh_raw s r
+                        else if geqb b s then a :: neigh_raw s r
+                        else neigh_raw s r
+  end.
+Definition neighbours (g : st) (s : gid) (hi lo : bool) : res (list gid) :=
+  let nb := neigh_raw s (i2s g) in
+  if hi && lo then Err ValueErr
+  else if hi then argsort (sds g) (filter (fun x => fst s <? fst x) nb)
+  else if lo then argsort (sds g) (filter (fun x => fst x <? fst s) nb)
+  else argsort (sds g) nb.
+
 (* ---------------- operations ---------------- *)
 Inductive op :=
 | AddSd (l : list gid)                        (* add_subdomains(list) *)
@@ -183,8 +216,13 @@ Fixpoint add_bgs (l : list gid) (m : list (gid * gid)) (b : list gid) (n : nat)
               else add_bgs r m b n
   end.
 
+(* no grid of the list equals an earlier one *)
+Fixpoint dupfree (l : list gid) : bool :=
+  match l with [] => true | x :: r => negb (mem x r) && dupfree r end.
+
 Definition add_subdomains (g : st) (l : list gid) : st * outcome :=
   if existsb (fun s => mem s (sds g)) l then (g, Raised ValueErr)
+  else if negb (dupfree l) then (g, Raised ValueErr)
   else
     let s' := fold_left (fun acc s => kadd s acc) l (sds g) in
     let '(m, b, n) := add_bgs l (s2b g) (bgs g) (nbg g) in
@@ -211,15 +249,16 @@ Fixpoint del_intfs (l : list gid) (k : list gid) (m : list (gid * (gid * gid)))
   end.
 
 Definition remove_subdomain (g : st) (s : gid) : st * outcome :=
-  if negb (mem s (sds g)) then (g, Raised KeyErr)
-  else
-    let g1 := mk (kdel s (sds g)) (intfs g) (i2s g) (s2b g) (bgs g) (nbg g) in
-    match interfaces g1 None with
-    | Err e => (g1, Raised e)
-    | Ok L =>
-        match collect (i2s g1) s L with
-        | Err e => (g1, Raised e)
-        | Ok rm =>
+  (* the interfaces are collected first, then the subdomain is deleted *)
+  match interfaces g None with
+  | Err e => (g, Raised e)
+  | Ok L =>
+      match collect (i2s g) s L with
+      | Err e => (g, Raised e)
+      | Ok rm =>
+          if negb (mem s (sds g)) then (g, Raised KeyErr)
+          else
+            let g1 := mk (kdel s (sds g)) (intfs g) (i2s g) (s2b g) (bgs g) (nbg g) in
             let '(k, m) := del_intfs rm (intfs g1) (i2s g1) in
             let g2 := mk (sds g1) k m (s2b g1) (bgs g1) (nbg g1) in
             if 0 <? gdim s then
@@ -231,8 +270,8 @@ Definition remove_subdomain (g : st) (s : gid) : st * outcome :=
                   else (g2, Raised KeyErr)
               end
             else (g2, Done)
-        end
-    end.
+      end
+  end.
 
 (* the loop over subdomain_to_interfaces(sd_old) inside replace *)
 Fixpoint rename_loop (s : list gid) (o n : gid) (l : list gid) (m : list (gid * (gid * gid)))
@@ -246,9 +285,11 @@ Fixpoint rename_loop (s : list gid) (o n : gid) (l : list gid) (m : list (gid * 
           match sort_tuple s a b with
           | Err e => (m, Some e)
           | Ok (hi, lo) =>
-              if geqb hi o then rename_loop s o n r (dset i (n, lo) m)
-              else if geqb lo o then rename_loop s o n r (dset i (hi, n) m)
-              else rename_loop s o n r m
+              (* both items are checked: a subdomain can be coupled to itself *)
+              let hi' := if geqb hi o then n else hi in
+              let m1 := if geqb hi o then dset i (n, lo) m else m in
+              let m2 := if geqb lo o then dset i (hi', n) m1 else m1 in
+              rename_loop s o n r m2
           end
       end
   end.
@@ -364,10 +405,14 @@ Record obs := mkobs {
   o_pairs : list (gid * res (gid * gid));            (* interface_to_subdomain_pair *)
   o_back : list (gid * gid * res gid);               (* subdomain_pair_to_interface *)
   o_sd_intfs : list (gid * res (list gid));          (* subdomain_to_interfaces *)
-  o_sd_bg : list (gid * option gid)                  (* subdomain_to_boundary_grid *)
+  o_sd_bg : list (gid * option gid);                 (* subdomain_to_boundary_grid *)
+  o_bounds : res (list gid);                         (* boundaries() *)
+  o_bounds_dim : list (nat * res (list gid));        (* boundaries(dim=d) *)
+  o_int_cd : list (option nat * nat * res (list gid));  (* interfaces(dim=d, codim=c) *)
+  o_neigh : list (gid * (bool * bool) * res (list gid)) (* neighboring_subdomains *)
 }.
 
-Definition obs_ok (g : st) (x : outcome) (o : obs) : bool :=
+Definition obs_ok (cm : list (gid * nat)) (g : st) (x : outcome) (o : obs) : bool :=
   outcome_eqb x (o_out o)
   && glist_eqb (sds g) (o_sds o) && glist_eqb (intfs g) (o_intfs o)
   && list_eqb (kv_eqb pair_eqb) (i2s g) (o_i2s o)
@@ -380,7 +425,16 @@ Definition obs_ok (g : st) (x : outcome) (o : obs) : bool :=
   && forallb (fun p => res_eqb geqb (pair_to_intf g (fst (fst p)) (snd (fst p))) (snd p))
              (o_back o)
   && forallb (fun p => res_eqb glist_eqb (sd_to_intfs g (fst p)) (snd p)) (o_sd_intfs o)
-  && forallb (fun p => opt_eqb geqb (sd_to_bg g (fst p)) (snd p)) (o_sd_bg o).
+  && forallb (fun p => opt_eqb geqb (sd_to_bg g (fst p)) (snd p)) (o_sd_bg o)
+  && res_eqb glist_eqb (boundaries g None) (o_bounds o)
+  && forallb (fun p => res_eqb glist_eqb (boundaries g (Some (fst p))) (snd p)) (o_bounds_dim o)
+  && forallb (fun p => res_eqb glist_eqb
+                         (interfaces_cd cm g (fst (fst p)) (Some (snd (fst p)))) (snd p))
+             (o_int_cd o)
+  && forallb (fun p => res_eqb glist_eqb
+                         (neighbours g (fst (fst p)) (fst (snd (fst p))) (snd (snd (fst p))))
+                         (snd p))
+             (o_neigh o).
 
 (* monomorphic constructors for the literals of generated case files (cheap to elaborate) *)
 Definition G (d n : nat) : gid := (d, n).
@@ -400,6 +454,11 @@ Definition ErrP (e : err) : res (gid * gid) := Err e.
 Definition ErrG (e : err) : res gid := Err e.
 Definition NoG : option gid := None.
 Definition SomeG (g : gid) : option gid := Some g.
+Definition CM (i : gid) (c : nat) : gid * nat := (i, c).
+Definition CD (d : option nat) (c : nat) (r : res (list gid)) : option nat * nat * res (list gid) :=
+  (d, c, r).
+Definition NB (s : gid) (hi lo : bool) (r : res (list gid)) : gid * (bool * bool) * res (list gid) :=
+  (s, (hi, lo), r).
 Definition gnil : list gid := nil.
 Definition gcons (g : gid) (l : list gid) : list gid := g :: l.
 
@@ -407,14 +466,16 @@ Definition gcons (g : gid) (l : list gid) : list gid := g :: l.
    dump and query results *)
 Inductive ob := Brief (x : outcome) | Full (o : obs).
 
-Fixpoint agree_from (g : st) (ops : list op) (os : list ob) : bool :=
+Fixpoint agree_from (cm : list (gid * nat)) (g : st) (ops : list op) (os : list ob) : bool :=
   match ops, os with
   | [], [] => true
   | o :: r, x :: xs =>
       let (g', out) := step g o in
-      (match x with Brief y => outcome_eqb out y | Full y => obs_ok g' out y end)
-      && agree_from g' r xs
+      (match x with Brief y => outcome_eqb out y | Full y => obs_ok cm g' out y end)
+      && agree_from cm g' r xs
   | _, _ => false
   end.
 
-Definition agree (ops : list op) (os : list ob) : bool := agree_from empty ops os.
+(* [cm]: the co-dimension attribute of the mortar grids of the case *)
+Definition agree (cm : list (gid * nat)) (ops : list op) (os : list ob) : bool :=
+  agree_from cm empty ops os.
